@@ -7,7 +7,7 @@ TRUSTED_BASE = [
     "Rust harness /verif/harness (drives the real code, dumps its state), python orchestrator ./check",
     "HashMap/DashMap as finite maps, VecDeque as a list, monotone Instant, fastrand as an arbitrary choice < len",
     "source translators checklib/static_scopes.py (lock / RefCell nesting -> Generated/*.lean, C16s / C17s) and checklib/static_sites.py (lock-site inventory): lexical scanners, trusted",
-    "source translator checklib/rust2lean.py (pure helper code of memory_estimator.rs, utils.rs, cache_entry.rs, stats.rs, eviction_policy.rs and the victim scans + insert / is_already_key_inserted / handle_entry_limit_eviction of async_global_cache.rs -> Generated/Pure*.lean, theorems T01..T11): a parser + emitter for the Rust subset these files use, trusted; the meaning of the library calls (usize subtraction, VecDeque / HashMap / iterator methods, atomics, f64 as an abstract structure) is the hand-written Cachelito/RustLite.lean, trusted; Rust's trait resolution (which MemoryEstimator impl a shape uses) is transcribed in Cachelito/Source/Mem.lean",
+    "source translator checklib/rust2lean.py (pure helper code of memory_estimator.rs, utils.rs, cache_entry.rs, stats.rs, eviction_policy.rs and the victim scans + insert / is_already_key_inserted / handle_entry_limit_eviction of async_global_cache.rs -> Generated/Pure*.lean, theorems T01..T12): a parser + emitter for the Rust subset these files use, trusted; the meaning of the library calls (usize subtraction, VecDeque / HashMap / iterator methods, atomics, f64 as an abstract structure) is the hand-written Cachelito/RustLite.lean, trusted; Rust's trait resolution (which MemoryEstimator impl a shape uses) is transcribed in Cachelito/Source/Mem.lean",
 ]
 
 HOOK_COMMITS = [
@@ -76,7 +76,7 @@ TECH = "Lean 4 theorem (induction over operation histories / invariants) + per-s
 
 PROPS = {
     "C01": {
-        "lean_modules": ["Cachelito.Props.C01", "Cachelito.Props.C01b", "Cachelito.Props.C01c", "Cachelito.Props.T07", "Cachelito.Props.T08", "Cachelito.Props.T09", "Cachelito.Props.T10", "Cachelito.Props.T11"],
+        "lean_modules": ["Cachelito.Props.C01", "Cachelito.Props.C01b", "Cachelito.Props.C01c", "Cachelito.Props.T07", "Cachelito.Props.T08", "Cachelito.Props.T09", "Cachelito.Props.T10", "Cachelito.Props.T11", "Cachelito.Props.T12"],
         "streams": [core_stream(nontrivial=["hit", "re-store"]), macro_stream(nontrivial=["hit"]),
                     sched_stream(nontrivial=['served-call-source-checked'], quick=(6, 8, 60), what="L3: scheduled runs of 2-3 real threads (calls racing with stores of the same key and with invalidations): every call returns the function's value for its own arguments, and a call served from the cache has a legitimate source (a store for the same arguments that no completed invalidation separates from it)")],
         "monitors": ["C01"],
@@ -109,7 +109,7 @@ PROPS = {
         "technique": TECH, "design_ref": "DESIGN.md §7 C03", "assumptions": ["sequential histories"],
     },
     "C14": {
-        "lean_modules": ["Cachelito.Props.C14", "Cachelito.Props.T11"],
+        "lean_modules": ["Cachelito.Props.C14", "Cachelito.Props.T11", "Cachelito.Props.T12"],
         "streams": [macro_stream(nontrivial=["c14-shared-hit", "call"]), hammer_stream(),
                     sched_stream(nontrivial=["c03-plain-concurrent-run", "calls-only-quiescent-check"], quick=(6, 8, 60),
                                  what="L3 calls-only programs on shared (global / async) caches under the deterministic scheduler: a value stored by a call that has returned is served to every call that starts later on any thread; a stored key vanishes only from a full cache")],
@@ -156,7 +156,7 @@ PROPS = {
         "assumptions": ["all stores of a history go through insert_with_memory (as the macros generate when max_memory is set)", "size_of table as reported by rustc"],
     },
     "C06": {
-        "lean_modules": ["Cachelito.Props.C06", "Cachelito.Props.T03", "Cachelito.Props.T09", "Cachelito.Props.T10"],
+        "lean_modules": ["Cachelito.Props.C06", "Cachelito.Props.T03", "Cachelito.Props.T09", "Cachelito.Props.T10", "Cachelito.Props.T12"],
         "streams": [core_stream(nontrivial=["expiry", "ttl-boundary"]),
                     sched_stream(nontrivial=['served-call-source-checked', 'concurrent-call'], quick=(6, 8, 60), what="L3: scheduled runs that start from EXPIRED entries (stored, then aged past the ttl through the verif hook): a call is served from the cache only if some call stored the key again; expired-lookup paths race with stores and with each other")],
         "monitors": ["C06"],
@@ -167,7 +167,7 @@ PROPS = {
         "assumptions": ["monotone clock"],
     },
     "C07": {
-        "lean_modules": ["Cachelito.Props.C07", "Cachelito.Props.T02", "Cachelito.Props.T07", "Cachelito.Props.T08", "Cachelito.Props.T09", "Cachelito.Props.T10", "Cachelito.Props.T11"],
+        "lean_modules": ["Cachelito.Props.C07", "Cachelito.Props.T02", "Cachelito.Props.T07", "Cachelito.Props.T08", "Cachelito.Props.T09", "Cachelito.Props.T10", "Cachelito.Props.T11", "Cachelito.Props.T12"],
         "streams": [core_stream(filters=[["policy=fifo"], ["policy=lru"]], nontrivial=["eviction"])],
         "monitors": ["C07"],
         "rule": "FIFO and LRU episodes on all three engines under entry limits 1..4, memory limits and both; non-trivial = a store that evicted",
@@ -177,7 +177,7 @@ PROPS = {
         "assumptions": [],
     },
     "C08": {
-        "lean_modules": ["Cachelito.Props.C08", "Cachelito.Props.T02", "Cachelito.Props.T03", "Cachelito.Props.T06", "Cachelito.Props.T07", "Cachelito.Props.T08", "Cachelito.Props.T09", "Cachelito.Props.T10", "Cachelito.Props.T11"],
+        "lean_modules": ["Cachelito.Props.C08", "Cachelito.Props.T02", "Cachelito.Props.T03", "Cachelito.Props.T06", "Cachelito.Props.T07", "Cachelito.Props.T08", "Cachelito.Props.T09", "Cachelito.Props.T10", "Cachelito.Props.T11", "Cachelito.Props.T12"],
         "streams": [core_stream(filters=[["policy=lfu"], ["policy=arc"], ["policy=tlru"], ["policy=lfu", "shape=crowd"],
                                             ["policy=arc", "shape=crowd"], ["policy=tlru", "shape=crowd"],
                                             ["policy=arc", "shape=crowd", "flavour=async"], ["policy=tlru", "shape=crowd", "flavour=async"]],
